@@ -128,7 +128,7 @@ def coxeter_sampling(tier, rng, rep):
         names_s = "xmdqazbk"[:rank]
         order_s = rng.permutation(len(pairs))
         diagram_s = [((names_s[pairs[e][1]], names_s[pairs[e][0]]) if rng.random() < 0.5 else (names_s[pairs[e][0]], names_s[pairs[e][1]])) + (int(labels[e]),) for e in order_s]
-        for route in ("matrix", "matrix_alphanum", "diagram", "diagram_shuffled"):
+        for route in ("matrix", "matrix_alphanum", "matrix_ndarray_reused", "diagram", "diagram_shuffled"):
             def body():
                 names = names_s if route == "diagram_shuffled" else "abcdefgh"[:rank]
                 if route == "diagram_shuffled":
@@ -137,6 +137,14 @@ def coxeter_sampling(tier, rng, rep):
                     G = coxeter.CoxeterGroup(diagram=diagram_s)
                 elif route == "matrix":
                     G = coxeter.CoxeterGroup(matrix=M.tolist())
+                elif route == "matrix_ndarray_reused":
+                    # the caller passes an ndarray and re-uses it as a work array afterwards (a label sweep): the group keeps the labels it was built with
+                    work = np.array(M, copy=True)
+                    G = coxeter.CoxeterGroup(matrix=work)
+                    work[...] = 3
+                    np.fill_diagonal(work, 1)
+                    if not np.array_equal(np.where(np.asarray(G.coxeter_matrix) <= 0, 0, np.asarray(G.coxeter_matrix)), np.where(M <= 0, 0, M)):
+                        rep.fail("group_keeps_its_labels", f"coxeter_matrix became {np.asarray(G.coxeter_matrix).tolist()} after the caller edited its own array", {**inp, "route": route}); return
                 elif route == "matrix_alphanum":
                     G = coxeter.CoxeterGroup(matrix=M.tolist(), generator_style="alphanum")
                 else:
